@@ -5,7 +5,7 @@
    loan/send/send_copy, receive, drops of every object in any order, set_disconnect_hint,
    has_requests) with ANY polling order, for the configuration g (all limits, overflow and
    fire-and-forget flags, numbers of client / server slots are universally quantified). *)
-From V Require Import model.Base model.ReqRes proofs.ReqResProofs proofs.ReqResInv proofs.ReqResRoute proofs.ReqResLink.
+From V Require Import model.Base model.ReqRes proofs.ReqResProofs proofs.ReqResInv proofs.ReqResRoute proofs.ReqResLink proofs.ReqResOrder proofs.ReqResOnce.
 Open Scope N_scope.
 
 (* ---- the channel-state word ------------------------------------------------------------- *)
@@ -244,15 +244,52 @@ Example c11_routing_slot_link_nonvacuous :
   map snd (s_idxlog (run cfg1 w_routing)) = [0; 0].
 Proof. split; [apply reach_run|]. split; [exact (proj1 w_reuse_no_slot_reuse)|]. split; [exact (proj2 w_reuse_no_slot_reuse)|exact w_routing_slot_reuse]. Qed.
 Print Assumptions c11_routing_slot_link_nonvacuous.
-(* NOT proved (visible on purpose): conservation of the reference counts (stored counter =
-   holders + queued + borrowed + not yet reclaimed), request delivery exactly once per connected
-   server, per-(server, request) response order.  They are tied by the correspondence runs only. *)
-Definition c11_reqres_conservation_full : Prop := forall g s, reach g s ->
-  forall c, In c (s_clients s) -> forall id n, In (id, n) (cl_rc c) ->
-    n = (if existsb (fun l => N.eqb (q_id (ln_msg l)) id) (s_loans s) || existsb (fun p => N.eqb (q_id (pn_msg p)) id) (s_pends s) then 1 else 0)
-        + lenN (filter (fun k => N.eqb (k_cl k) (cl_inst c) && view_active (k_cv k) && existsb (N.eqb id) (conn_req_used k)) (s_conns s)).
-Definition c11_request_once_full : Prop := forall g s, reach g s ->
-  forall sv, NoDup (map (fun x => q_id (snd x)) (filter (fun x => N.eqb (fst x) sv) (s_slog s))).
+
+(* ---- order / at most once -------------------------------------------------------------------- *)
+(* Every response gets a stamp from the global counter at the moment ResponseMut::send delivers
+   it (stamps = send order).  In every reachable state the receive log of a pending response,
+   restricted to one server, has strictly increasing stamps: the responses of one server arrive
+   through a PendingResponse in the order they were sent, and none arrives twice.  Invariant
+   (proofs/ReqResOrder.v oi): in every channel queue the stamps strictly increase, are below the
+   counter and above the stamps of everything the same (client, server, channel) handed out
+   before -- across channel recycling, overflow eviction, discarded stale responses, expired
+   connections. *)
 Definition c11_routing_order_full : Prop := forall g s, reach g s ->
-  forall p sv, exists l, l = map (fun pm => p_stamp (snd pm)) (filter (fun pm => N.eqb (q_id (pn_msg (fst pm))) (q_id (pn_msg p)) && N.eqb (p_sv (snd pm)) sv) (s_rlog s)) /\
-    forall i j, (i < j < length l)%nat -> nth i l 0 < nth j l 0.
+  forall l1 p m1 l2 m2, s_rlog s = l1 ++ (p, m1) :: l2 -> In (p, m2) l2 -> p_sv m2 = p_sv m1 -> p_stamp m1 < p_stamp m2.
+Theorem c11_routing_order : c11_routing_order_full.
+Proof. exact routing_order. Qed.
+Print Assumptions c11_routing_order.
+Example c11_routing_order_nonvacuous :
+  reach cfg3 (run cfg3 w_two) /\
+  map (fun pm => (q_hid (pn_msg (fst pm)), p_val (snd pm), p_stamp (snd pm))) (s_rlog (run cfg3 w_two)) = [(0, 0, 6); (0, 1, 8)].
+Proof. split; [apply reach_run|exact w_two_spec]. Qed.
+Print Assumptions c11_routing_order_nonvacuous.
+
+(* ---- requests: in send order, at most once per server ------------------------------------------ *)
+(* Every request gets a stamp from the global counter at the moment send_request delivers it.
+   In every reachable state the receive log of a server, restricted to one client, has strictly
+   increasing stamps: a server receives the requests of a client in the order they were sent and
+   never the same request twice (the recipient count returned by send says how many servers
+   accepted it; a request that was not accepted, was evicted by overflow, or whose server or
+   client went away is received by nobody -- "exactly once" is not a safety property).
+   Invariant (proofs/ReqResOnce.v ri): in every request queue the stamps strictly increase, are
+   below the counter and above everything the server already received from that client; the
+   connection table has at most one connection per (client, server) pair. *)
+Definition c11_request_once_full : Prop := forall g s, reach g s ->
+  forall l1 sv m1 l2 m2, s_slog s = l1 ++ (sv, m1) :: l2 -> In (sv, m2) l2 -> q_cl m2 = q_cl m1 -> q_stamp m1 < q_stamp m2.
+Theorem c11_request_once : c11_request_once_full.
+Proof. exact request_once. Qed.
+Print Assumptions c11_request_once.
+Example c11_request_once_nonvacuous :
+  reach cfg4 (run cfg4 w_two_req) /\
+  map (fun x => (fst x, q_cl (snd x), q_hid (snd x), q_stamp (snd x))) (s_slog (run cfg4 w_two_req)) = [(1, 0, 0, 3); (1, 0, 1, 5)].
+Proof. split; [apply reach_run|exact w_two_req_spec]. Qed.
+Print Assumptions c11_request_once_nonvacuous.
+Theorem c11_connection_table_unique : forall g s, reach g s -> NoDup (map (fun k => (k_cl k, k_sv k)) (s_conns s)).
+Proof. exact conn_keys_unique. Qed.
+Print Assumptions c11_connection_table_unique.
+(* NOT proved (visible on purpose): conservation of the reference counts (stored counter =
+   holders + queued + borrowed + not yet reclaimed; model/ReqRes.v cons_okb).  Tied by the
+   correspondence runs: the driver evaluates cons_okb on every model state of every history (and
+   LoanError::OutOfMemory, which depends on the counts, is compared with the implementation). *)
+Definition c11_reqres_conservation_full : Prop := forall g s, reach g s -> cons_okb s = true.
